@@ -266,7 +266,11 @@ var c09Random = probe.Define("C09", "exponents", func(t *rapid.T) c09RandIn {
 		var pub, shared []byte
 		var failed bool
 		probe.WithEntropy(in.Stream, in.FailAt, func(en *probe.Entropy) {
-			err = probe.Try(func() error { var x error; pub, shared, x = security.CalculateDiffieHellmanMaterials(sa, peer); return x })
+			err = probe.Try(func() error {
+				var x error
+				pub, shared, x = security.CalculateDiffieHellmanMaterials(sa, peer)
+				return x
+			})
 			failed = en.Failed
 		})
 		if probe.IsPanic(err) {
@@ -282,7 +286,11 @@ var c09Random = probe.Define("C09", "exponents", func(t *rapid.T) c09RandIn {
 		}
 		var nsa *security.IKESAKey
 		probe.WithEntropy(in.Stream, in.FailAt, func(en *probe.Entropy) {
-			err = probe.Try(func() error { var x error; nsa, pub, x = security.NewIKESAKey(prop, peer, []byte("nonces"), 1, 2); return x })
+			err = probe.Try(func() error {
+				var x error
+				nsa, pub, x = security.NewIKESAKey(prop, peer, []byte("nonces"), 1, 2)
+				return x
+			})
 			failed = en.Failed
 		})
 		if probe.IsPanic(err) {
